@@ -64,12 +64,21 @@ type VGroup struct {
 	committed []*pb.Entry
 	sm        *appState
 	stateAt   map[uint64][]byte
+	// membership: the model's voters never change; committed conf-change
+	// entries only add and remove phantom learners (ids no node has), so that
+	// the real node goes through configuration changes, snapshots carry the
+	// configuration of their index and that configuration can differ from the
+	// one the node is in
+	ref       *RefConf
+	confAt    map[uint64]*pb.ConfState
 	maxTerm   uint64
 	Elections int
 }
 
 func newVGroup(c *Cluster, real uint64, ids []uint64, conf *pb.ConfState, init *appState) *VGroup {
-	g := &VGroup{c: c, real: real, ids: ids, peers: map[uint64]*vPeer{}, conf: conf, base: init.Index, sm: init.clone(), stateAt: map[uint64][]byte{}}
+	g := &VGroup{c: c, real: real, ids: ids, peers: map[uint64]*vPeer{}, conf: conf, base: init.Index, sm: init.clone(), stateAt: map[uint64][]byte{},
+		ref: refConfFromConfState(conf), confAt: map[uint64]*pb.ConfState{}}
+	g.confAt[init.Index] = conf
 	for _, id := range ids {
 		g.peers[id] = &vPeer{id: id, term: 1, base: init.Index, baseTerm: 1, commit: init.Index}
 	}
@@ -128,8 +137,56 @@ func (g *VGroup) elect(id uint64) bool {
 	p.match = 0
 	p.acked = map[uint64]uint64{}
 	p.log = append(p.log, &pb.Entry{Term: new(t), Index: new(p.last() + 1)})
+	g.registerCreated(p)
 	g.Elections++
 	return true
+}
+
+// proposeConf lets a model leader append a configuration change that adds or
+// removes a phantom learner.
+func (g *VGroup) proposeConf(id uint64, ctx, kind int) bool {
+	p := g.peers[id]
+	if p == nil || !p.leader {
+		return false
+	}
+	phantom := uint64(7000001 + kind%2)
+	for _, x := range g.c.ids {
+		if x == phantom {
+			return false
+		}
+	}
+	typ := pb.ConfChangeAddLearnerNode
+	if (kind/2)%2 == 1 {
+		typ = pb.ConfChangeRemoveNode
+	}
+	cc := &pb.ConfChangeV2{Context: []byte(fmt.Sprintf("c%d", ctx)), Changes: []*pb.ConfChangeSingle{{Type: typ.Enum(), NodeId: new(phantom)}}}
+	et, data, err := pb.MarshalConfChange(cc)
+	if err != nil {
+		g.c.chk.toolError("vgroup: marshal conf change: " + err.Error())
+		return false
+	}
+	p.log = append(p.log, &pb.Entry{Term: new(p.term), Index: new(p.last() + 1), Type: et.Enum(), Data: data})
+	g.registerCreated(p)
+	k := g.c.chk
+	key := fmt.Sprintf("c%d", ctx)
+	k.ccProposed[key] = data
+	k.ccType[key] = et
+	return true
+}
+
+// registerCreated enters the entry a model leader has just created into the
+// log-matching table (C03 log.match): (index, term) determines the entry and
+// the term of its predecessor in every log of the group, the abstract peers'
+// logs included, so the real node's log is judged against them as well.
+func (g *VGroup) registerCreated(p *vPeer) {
+	e := p.log[len(p.log)-1]
+	pt, ok := p.termAt(e.GetIndex() - 1)
+	key := lmKey{e.GetIndex(), e.GetTerm()}
+	if _, dup := g.c.chk.lm[key]; dup {
+		g.c.chk.toolError(fmt.Sprintf("vgroup: two entries created with index %d and term %d", key.index, key.term))
+		return
+	}
+	g.c.chk.lm[key] = lmVal{hash: hashEntry(e), prevTerm: pt, prevKnown: ok}
 }
 
 func (g *VGroup) propose(id uint64, tag, size int) bool {
@@ -143,6 +200,7 @@ func (g *VGroup) propose(id uint64, tag, size int) bool {
 	}
 	data := makePayload(tag, key, size)
 	p.log = append(p.log, &pb.Entry{Term: new(p.term), Index: new(p.last() + 1), Data: data})
+	g.registerCreated(p)
 	// the payload is a legitimate client proposal
 	k := g.c.chk
 	k.proposed[tag] = data
@@ -240,6 +298,14 @@ func (g *VGroup) commitAdvance(id uint64) bool {
 		}
 		g.committed = append(g.committed, e)
 		switch e.GetType() {
+		case pb.EntryConfChangeV2:
+			g.sm.Chain = chainHash(g.sm.Chain, i, hashEntry(e))
+			g.sm.Index = i
+			if cc, _, err := decodeCC(e); err == nil {
+				_, g.ref = appDecide(g.ref, cc)
+			} else {
+				g.c.chk.toolError("vgroup: conf change does not decode: " + err.Error())
+			}
 		case pb.EntryNormal:
 			g.sm.Chain = chainHash(g.sm.Chain, i, hashEntry(e))
 			g.sm.Index = i
@@ -249,6 +315,7 @@ func (g *VGroup) commitAdvance(id uint64) bool {
 			}
 		}
 		g.stateAt[i] = g.sm.encode()
+		g.confAt[i] = g.ref.ConfState()
 	}
 	// consistency of the model itself: a committed index never changes
 	for i := g.base + 1; i <= best; i++ {
@@ -307,7 +374,11 @@ func (g *VGroup) snapshotOf(p *vPeer) *pb.Snapshot {
 	if !ok {
 		return nil
 	}
-	return &pb.Snapshot{Data: data, Metadata: &pb.SnapshotMetadata{Index: new(p.base), Term: new(p.baseTerm), ConfState: proto.Clone(g.conf).(*pb.ConfState)}}
+	cs, ok := g.confAt[p.base]
+	if !ok {
+		return nil
+	}
+	return &pb.Snapshot{Data: data, Metadata: &pb.SnapshotMetadata{Index: new(p.base), Term: new(p.baseTerm), ConfState: proto.Clone(cs).(*pb.ConfState)}}
 }
 
 // sendApp sends a MsgApp anchored at prev = max(match, last-backoff) with up to
@@ -417,6 +488,8 @@ func (g *VGroup) exec1(a Action) bool {
 		return g.sendHeartbeat(a.N)
 	case AVSendSnap:
 		return g.sendSnap(a.N)
+	case AVProposeConf:
+		return g.proposeConf(a.N, a.I, a.J)
 	}
 	return false
 }
